@@ -557,4 +557,353 @@ theorem aabb_cast_cases (big : K) (b : Aabb K) (ray : Ray3 K) (max : K) (solid :
     · rw [h0]; simp only [h1, h2]
 
 
+/-! ## clip_aabb_line helpers -/
+
+/-- entering face of axis `i`: side code `i+1` = min face (ray moving in `+i`), `−(i+1)` = max face (moving in `−i`) -/
+def NearFace (i : Nat) (mn mx o d : K) (side : Int) (t : K) : Prop :=
+  (side = (i : Int) + 1 ∧ 0 < d ∧ o + d * t = mn) ∨ (side = -((i : Int) + 1) ∧ d < 0 ∧ o + d * t = mx)
+/-- leaving face of axis `i`: `−(i+1)` = max face (moving in `+i`), `i+1` = min face (moving in `−i`) -/
+def FarFace (i : Nat) (mn mx o d : K) (side : Int) (t : K) : Prop :=
+  (side = -((i : Int) + 1) ∧ 0 < d ∧ o + d * t = mx) ∨ (side = (i : Int) + 1 ∧ d < 0 ∧ o + d * t = mn)
+
+/-- loop invariant of `clip_aabb_line` -/
+structure ClipInv (big : K) (P : K → Prop) (nearOK farOK : Int → K → Prop) (st : ClipSt K) : Prop where
+  iff : ∀ s, -big ≤ s → s ≤ big → (P s ↔ st.tmin ≤ s ∧ s ≤ st.tmax)
+  lo : -big ≤ st.tmin
+  hi : st.tmax ≤ big
+  le : st.tmin ≤ st.tmax
+  nn : 0 ≤ st.tmax
+  nside : (st.nearSide = 0 ∧ st.tmin = -big) ∨ nearOK st.nearSide st.tmin
+  fside : (st.farSide = 0 ∧ st.tmax = big) ∨ farOK st.farSide st.tmax
+
+theorem flip_iff (mn mx o d : K) (hbox : mn < mx) (hd : d ≠ 0) :
+    (mx - o) * (1 / d) < (mn - o) * (1 / d) ↔ d < 0 := by
+  have e1 : (mn - o) * (1 / d) = (mn - o) / d := by ring
+  have e2 : (mx - o) * (1 / d) = (mx - o) / d := by ring
+  rw [e1, e2]
+  rcases lt_or_gt_of_ne hd with h | h
+  · simp only [h, iff_true]; rw [div_lt_div_right_of_neg h]; linarith
+  · have : ¬ d < 0 := not_lt.2 h.le
+    simp only [this, iff_false, not_lt]; rw [div_le_div_iff_of_pos_right h]; linarith
+
+/-- the "near" update of one `clip_aabb_line` iteration -/
+def updNear (i : Nat) (flip : Bool) (near : K) (st : ClipSt K) : ClipSt K :=
+  letI := fieldNum K sq
+  if st.tmin < near then
+    { st with tmin := near, nearSide := if flip then -((i : Int) + 1) else (i : Int) + 1, nearDiag := false }
+  else if neq near st.tmin then { st with nearDiag := true } else st
+/-- the "far" update -/
+def updFar (i : Nat) (flip : Bool) (far : K) (st : ClipSt K) : ClipSt K :=
+  letI := fieldNum K sq
+  if far < st.tmax then
+    { st with tmax := far, farSide := if !flip then -((i : Int) + 1) else (i : Int) + 1, farDiag := false }
+  else if neq far st.tmax then { st with farDiag := true } else st
+
+theorem clipStep_eq (i : Nat) (mn mx o d : K) (st : ClipSt K) :
+    letI := fieldNum K sq
+    clipStep i mn mx o d st =
+      if neq d 0 then (if o < mn ∨ mx < o then none else some st)
+      else
+        let n0 := (mn - o) * (1 / d); let f0 := (mx - o) * (1 / d)
+        let flip : Bool := decide (f0 < n0)
+        let st2 := updFar sq i flip (if flip then n0 else f0) (updNear sq i flip (if flip then f0 else n0) st)
+        if st2.tmax < 0 ∨ st2.tmax < st2.tmin then none else some st2 := rfl
+
+theorem updNear_spec (i : Nat) (flip : Bool) (near : K) (st : ClipSt K) :
+    (updNear sq i flip near st).tmin = max st.tmin near ∧ (updNear sq i flip near st).tmax = st.tmax ∧
+    (updNear sq i flip near st).farSide = st.farSide ∧
+    ((st.tmin < near ∧ (updNear sq i flip near st).nearSide = (if flip then -((i : Int) + 1) else (i : Int) + 1)) ∨
+     (near ≤ st.tmin ∧ (updNear sq i flip near st).nearSide = st.nearSide)) := by
+  unfold updNear
+  by_cases h1 : st.tmin < near
+  · rw [if_pos h1]
+    exact ⟨(max_eq_right h1.le).symm, rfl, rfl, Or.inl ⟨h1, rfl⟩⟩
+  · rw [if_neg h1]
+    by_cases h2 : @neq K (fieldNum K sq) near st.tmin = true
+    · rw [if_pos h2]
+      exact ⟨(max_eq_left (not_lt.1 h1)).symm, rfl, rfl, Or.inr ⟨not_lt.1 h1, rfl⟩⟩
+    · rw [if_neg h2]
+      exact ⟨(max_eq_left (not_lt.1 h1)).symm, rfl, rfl, Or.inr ⟨not_lt.1 h1, rfl⟩⟩
+
+theorem updFar_spec (i : Nat) (flip : Bool) (far : K) (st : ClipSt K) :
+    (updFar sq i flip far st).tmax = min st.tmax far ∧ (updFar sq i flip far st).tmin = st.tmin ∧
+    (updFar sq i flip far st).nearSide = st.nearSide ∧
+    ((far < st.tmax ∧ (updFar sq i flip far st).farSide = (if !flip then -((i : Int) + 1) else (i : Int) + 1)) ∨
+     (st.tmax ≤ far ∧ (updFar sq i flip far st).farSide = st.farSide)) := by
+  unfold updFar
+  by_cases h1 : far < st.tmax
+  · rw [if_pos h1]
+    exact ⟨(min_eq_right h1.le).symm, rfl, rfl, Or.inl ⟨h1, rfl⟩⟩
+  · rw [if_neg h1]
+    by_cases h2 : @neq K (fieldNum K sq) far st.tmax = true
+    · rw [if_pos h2]
+      exact ⟨(min_eq_left (not_lt.1 h1)).symm, rfl, rfl, Or.inr ⟨not_lt.1 h1, rfl⟩⟩
+    · rw [if_neg h2]
+      exact ⟨(min_eq_left (not_lt.1 h1)).symm, rfl, rfl, Or.inr ⟨not_lt.1 h1, rfl⟩⟩
+
+theorem clipStep_some (big : K) (i : Nat) (mn mx o d : K) (hbox : mn < mx) (P : K → Prop) (nearOK farOK : Int → K → Prop)
+    (st st' : ClipSt K)
+    (hnear : ∀ side t, NearFace i mn mx o d side t → nearOK side t)
+    (hfar : ∀ side t, FarFace i mn mx o d side t → farOK side t)
+    (hinv : ClipInv big P nearOK farOK st) :
+    letI := fieldNum K sq
+    clipStep i mn mx o d st = some st' → ClipInv big (fun s => P s ∧ SlabMem mn mx o d s) nearOK farOK st' := by
+  rw [clipStep_eq]
+  by_cases hd : d = 0
+  · have : @neq K (fieldNum K sq) d 0 = true := (neq_zero_iff sq d).2 hd
+    rw [if_pos this]
+    split_ifs with h
+    · intro h'; cases h'
+    · intro h'; cases h'
+      push Not at h
+      refine ⟨fun s hs hsb => ?_, hinv.lo, hinv.hi, hinv.le, hinv.nn, hinv.nside, hinv.fside⟩
+      rw [← hinv.iff s hs hsb]
+      unfold SlabMem; rw [hd]; simp only [zero_mul, add_zero]
+      exact ⟨fun h' => h'.1, fun h' => ⟨h', h.1, h.2⟩⟩
+  · have : ¬ (@neq K (fieldNum K sq) d 0 = true) := fun h => hd ((neq_zero_iff sq d).1 h)
+    rw [if_neg this]
+    have hs := slab_iff mn mx o d
+    have hfl := flip_iff mn mx o d hbox hd
+    simp only
+    set n0 := (mn - o) * (1 / d) with hn0
+    set f0 := (mx - o) * (1 / d) with hf0
+    have en : o + d * n0 = mn := by rw [hn0]; field_simp; ring
+    have ef : o + d * f0 = mx := by rw [hf0]; field_simp; ring
+    -- the sorted parameters and what they mean, by sign of d
+    obtain ⟨near, far, flip, hnearv, hfarv, hslab, hN, hF⟩ :
+        ∃ (near far : K) (flip : Bool), (if (decide (f0 < n0)) = true then f0 else n0) = near ∧
+          (if (decide (f0 < n0)) = true then n0 else f0) = far ∧
+          (∀ s, SlabMem mn mx o d s ↔ near ≤ s ∧ s ≤ far) ∧ decide (f0 < n0) = flip ∧
+          (NearFace i mn mx o d (if flip then -((i : Int) + 1) else (i : Int) + 1) near ∧
+           FarFace i mn mx o d (if !flip then -((i : Int) + 1) else (i : Int) + 1) far) := by
+      rcases lt_or_gt_of_ne hd with hneg | hpos
+      · have hflip : f0 < n0 := hfl.2 hneg
+        refine ⟨f0, n0, true, by simp [hflip], by simp [hflip], fun s => ?_, by simp [hflip], ?_⟩
+        · have := hs s hbox.le hd; simp only [hflip, if_true] at this; exact this
+        · exact ⟨Or.inr ⟨by simp, hneg, ef⟩, Or.inr ⟨by simp, hneg, en⟩⟩
+      · have hflip : ¬ f0 < n0 := fun h => absurd (hfl.1 h) (not_lt.2 hpos.le)
+        refine ⟨n0, f0, false, by simp [hflip], by simp [hflip], fun s => ?_, by simp [hflip], ?_⟩
+        · have := hs s hbox.le hd; simp only [hflip, if_false] at this; exact this
+        · exact ⟨Or.inl ⟨by simp, hpos, en⟩, Or.inl ⟨by simp, hpos, ef⟩⟩
+    rw [hnearv, hfarv, hN]
+    obtain ⟨a1, a2, a3, a4⟩ := updNear_spec sq i flip near st
+    obtain ⟨b1, b2, b3, b4⟩ := updFar_spec sq i flip far (updNear sq i flip near st)
+    generalize updNear sq i flip near st = st1 at *
+    generalize updFar sq i flip far st1 = st2 at *
+    split_ifs with h
+    · intro h'; cases h'
+    · intro h'; cases h'
+      push Not at h
+      have e1 : st'.tmin = max st.tmin near := by rw [b2, a1]
+      have e2 : st'.tmax = min st.tmax far := by rw [b1, a2]
+      refine ⟨fun s hs0 hsb => ?_, ?_, ?_, h.2, h.1, ?_, ?_⟩
+      · rw [hinv.iff s hs0 hsb, hslab s, e1, e2]
+        simp only [max_le_iff, le_min_iff]; tauto
+      · rw [e1]; exact le_trans hinv.lo (le_max_left _ _)
+      · rw [e2]; exact le_trans (min_le_left _ _) hinv.hi
+      · rw [b3]
+        rcases a4 with ⟨hlt, hside⟩ | ⟨hle, hside⟩
+        · right; rw [hside, e1, max_eq_right hlt.le]; exact hnear _ _ hF.1
+        · rw [hside, e1, max_eq_left hle]; exact hinv.nside
+      · rcases b4 with ⟨hlt, hside⟩ | ⟨hle, hside⟩
+        · right; rw [hside, e2, a2] at *; rw [min_eq_right hlt.le]; exact hfar _ _ hF.2
+        · rw [hside, a3, e2]; rw [a2] at hle; rw [min_eq_left hle]; exact hinv.fside
+
+theorem clipStep_none (big : K) (i : Nat) (mn mx o d : K) (hbox : mn < mx) (P : K → Prop) (nearOK farOK : Int → K → Prop)
+    (st : ClipSt K) (hinv : ClipInv big P nearOK farOK st) :
+    letI := fieldNum K sq
+    clipStep i mn mx o d st = none → ∀ s, 0 ≤ s → s ≤ big → ¬ (P s ∧ SlabMem mn mx o d s) := by
+  rw [clipStep_eq]
+  by_cases hd : d = 0
+  · have : @neq K (fieldNum K sq) d 0 = true := (neq_zero_iff sq d).2 hd
+    rw [if_pos this]
+    split_ifs with h
+    · intro _ s _ _ ⟨_, h1, h2⟩
+      rw [hd] at h1 h2; simp only [zero_mul, add_zero] at h1 h2
+      rcases h with h | h <;> linarith
+    · intro h'; cases h'
+  · have : ¬ (@neq K (fieldNum K sq) d 0 = true) := fun h => hd ((neq_zero_iff sq d).1 h)
+    rw [if_neg this]
+    have hs := slab_iff mn mx o d
+    simp only
+    set n0 := (mn - o) * (1 / d) with hn0
+    set f0 := (mx - o) * (1 / d) with hf0
+    obtain ⟨near, far, flip, hnearv, hfarv, hslab, hF⟩ :
+        ∃ (near far : K) (flip : Bool), (if (decide (f0 < n0)) = true then f0 else n0) = near ∧
+          (if (decide (f0 < n0)) = true then n0 else f0) = far ∧
+          (∀ s, SlabMem mn mx o d s ↔ near ≤ s ∧ s ≤ far) ∧ decide (f0 < n0) = flip := by
+      by_cases hflip : f0 < n0
+      · refine ⟨f0, n0, true, by simp [hflip], by simp [hflip], fun s => ?_, by simp [hflip]⟩
+        have := hs s hbox.le hd; simp only [hflip, if_true] at this; exact this
+      · refine ⟨n0, f0, false, by simp [hflip], by simp [hflip], fun s => ?_, by simp [hflip]⟩
+        have := hs s hbox.le hd; simp only [hflip, if_false] at this; exact this
+    rw [hnearv, hfarv, hF]
+    obtain ⟨a1, a2, _, _⟩ := updNear_spec sq i flip near st
+    obtain ⟨b1, b2, _, _⟩ := updFar_spec sq i flip far (updNear sq i flip near st)
+    generalize updNear sq i flip near st = st1 at *
+    generalize updFar sq i flip far st1 = st2 at *
+    split_ifs with h
+    · intro _ s hs0 hsb ⟨hp, hsl⟩
+      rw [hinv.iff s (le_trans (neg_nonpos.2 (le_trans hs0 hsb)) hs0) hsb] at hp
+      rw [hslab s] at hsl
+      have e1 : st2.tmin = max st.tmin near := by rw [b2, a1]
+      have e2 : st2.tmax = min st.tmax far := by rw [b1, a2]
+      have h1 : max st.tmin near ≤ s := max_le hp.1 hsl.1
+      have h2 : s ≤ min st.tmax far := le_min hp.2 hsl.2
+      rw [e1, e2] at h
+      rcases h with h | h <;> linarith
+    · intro h'; cases h'
+
+
+/-- `mins < maxs` componentwise (non-degenerate box) -/
+def AabbStrict (b : Aabb K) : Prop := b.mins.x < b.maxs.x ∧ b.mins.y < b.maxs.y ∧ b.mins.z < b.maxs.z
+
+/-- the side code / parameter pair names an entering face of the box for this ray -/
+def NearOK (b : Aabb K) (ray : Ray3 K) (side : Int) (t : K) : Prop :=
+  NearFace 0 b.mins.x b.maxs.x ray.o.x ray.d.x side t ∨ NearFace 1 b.mins.y b.maxs.y ray.o.y ray.d.y side t ∨
+  NearFace 2 b.mins.z b.maxs.z ray.o.z ray.d.z side t
+def FarOK (b : Aabb K) (ray : Ray3 K) (side : Int) (t : K) : Prop :=
+  FarFace 0 b.mins.x b.maxs.x ray.o.x ray.d.x side t ∨ FarFace 1 b.mins.y b.maxs.y ray.o.y ray.d.y side t ∨
+  FarFace 2 b.mins.z b.maxs.z ray.o.z ray.d.z side t
+
+theorem ClipInv.congr {big : K} {P Q : K → Prop} {n f : Int → K → Prop} {st : ClipSt K} (h : ClipInv big P n f st)
+    (hpq : ∀ s, P s ↔ Q s) : ClipInv big Q n f st :=
+  ⟨fun s a b => (hpq s).symm.trans (h.iff s a b), h.lo, h.hi, h.le, h.nn, h.nside, h.fside⟩
+
+/-- the three iterations of `clip_aabb_line` -/
+theorem clip_fold (big : K) (b : Aabb K) (ray : Ray3 K) (hv : AabbStrict b) (hbig : 0 ≤ big) :
+    letI := fieldNum K sq
+    let st0 : ClipSt K := ⟨-big, big, 0, 0, false, false⟩
+    (∃ s0 s1 st, clipStep 0 b.mins.x b.maxs.x ray.o.x ray.d.x st0 = some s0 ∧
+        clipStep 1 b.mins.y b.maxs.y ray.o.y ray.d.y s0 = some s1 ∧ clipStep 2 b.mins.z b.maxs.z ray.o.z ray.d.z s1 = some st ∧
+        ClipInv big (fun s => AabbMem b (rayPt sq ray s)) (NearOK b ray) (FarOK b ray) st) ∨
+    ((clipStep 0 b.mins.x b.maxs.x ray.o.x ray.d.x st0 = none ∨
+      (∃ s0, clipStep 0 b.mins.x b.maxs.x ray.o.x ray.d.x st0 = some s0 ∧
+        (clipStep 1 b.mins.y b.maxs.y ray.o.y ray.d.y s0 = none ∨
+         ∃ s1, clipStep 1 b.mins.y b.maxs.y ray.o.y ray.d.y s0 = some s1 ∧ clipStep 2 b.mins.z b.maxs.z ray.o.z ray.d.z s1 = none))) ∧
+      ∀ s, 0 ≤ s → s ≤ big → ¬ AabbMem b (rayPt sq ray s)) := by
+  intro st0
+  obtain ⟨vx, vy, vz⟩ := hv
+  have i0 : ClipInv big (fun _ => True) (NearOK b ray) (FarOK b ray) st0 :=
+    ⟨fun s a c => ⟨fun _ => ⟨a, c⟩, fun _ => trivial⟩, le_refl _, le_refl _, by show -big ≤ big; linarith, hbig,
+      Or.inl ⟨rfl, rfl⟩, Or.inl ⟨rfl, rfl⟩⟩
+  have nx : ∀ side t, NearFace 0 b.mins.x b.maxs.x ray.o.x ray.d.x side t → NearOK b ray side t := fun _ _ h => Or.inl h
+  have ny : ∀ side t, NearFace 1 b.mins.y b.maxs.y ray.o.y ray.d.y side t → NearOK b ray side t := fun _ _ h => Or.inr (Or.inl h)
+  have nz : ∀ side t, NearFace 2 b.mins.z b.maxs.z ray.o.z ray.d.z side t → NearOK b ray side t := fun _ _ h => Or.inr (Or.inr h)
+  have fx : ∀ side t, FarFace 0 b.mins.x b.maxs.x ray.o.x ray.d.x side t → FarOK b ray side t := fun _ _ h => Or.inl h
+  have fy : ∀ side t, FarFace 1 b.mins.y b.maxs.y ray.o.y ray.d.y side t → FarOK b ray side t := fun _ _ h => Or.inr (Or.inl h)
+  have fz : ∀ side t, FarFace 2 b.mins.z b.maxs.z ray.o.z ray.d.z side t → FarOK b ray side t := fun _ _ h => Or.inr (Or.inr h)
+  cases h0 : @clipStep K (fieldNum K sq) 0 b.mins.x b.maxs.x ray.o.x ray.d.x st0 with
+  | none =>
+    refine Or.inr ⟨Or.inl rfl, fun s a c hm => ?_⟩
+    exact clipStep_none sq big 0 _ _ _ _ vx _ _ _ _ i0 h0 s a c ⟨trivial, ((aabbMem_rayPt sq b ray s).1 hm).1⟩
+  | some s0 =>
+    have i1 := clipStep_some sq big 0 _ _ _ _ vx _ _ _ _ s0 nx fx i0 h0
+    cases h1 : @clipStep K (fieldNum K sq) 1 b.mins.y b.maxs.y ray.o.y ray.d.y s0 with
+    | none =>
+      refine Or.inr ⟨Or.inr ⟨s0, rfl, Or.inl h1⟩, fun s a c hm => ?_⟩
+      have hm' := (aabbMem_rayPt sq b ray s).1 hm
+      exact clipStep_none sq big 1 _ _ _ _ vy _ _ _ _ i1 h1 s a c ⟨⟨trivial, hm'.1⟩, hm'.2.1⟩
+    | some s1 =>
+      have i2 := clipStep_some sq big 1 _ _ _ _ vy _ _ _ _ s1 ny fy i1 h1
+      cases h2 : @clipStep K (fieldNum K sq) 2 b.mins.z b.maxs.z ray.o.z ray.d.z s1 with
+      | none =>
+        refine Or.inr ⟨Or.inr ⟨s0, rfl, Or.inr ⟨s1, h1, h2⟩⟩, fun s a c hm => ?_⟩
+        have hm' := (aabbMem_rayPt sq b ray s).1 hm
+        exact clipStep_none sq big 2 _ _ _ _ vz _ _ _ _ i2 h2 s a c ⟨⟨⟨trivial, hm'.1⟩, hm'.2.1⟩, hm'.2.2⟩
+      | some st =>
+        have i3 := clipStep_some sq big 2 _ _ _ _ vz _ _ _ _ st nz fz i2 h2
+        refine Or.inl ⟨s0, s1, st, rfl, h1, h2, i3.congr fun s => ?_⟩
+        rw [aabbMem_rayPt]; tauto
+
+/-- the near/far normals written by `clip_aabb_line` from the final loop state -/
+def clipNearN (d : V3 K) (s : ClipSt K) : V3 K :=
+  letI := fieldNum K sq
+  if s.nearDiag then d.normalize.neg else if s.nearSide < 0 then axisVec (-s.nearSide - 1) 1 else axisVec (s.nearSide - 1) (-1)
+def clipFarN (d : V3 K) (s : ClipSt K) : V3 K :=
+  letI := fieldNum K sq
+  if s.farDiag then d.normalize.neg else if s.farSide < 0 then axisVec (-s.farSide - 1) (-1) else axisVec (s.farSide - 1) 1
+
+/-- `clip_aabb_line` in terms of the final loop state -/
+theorem clip_cases (big : K) (b : Aabb K) (ray : Ray3 K) (hv : AabbStrict b) (hbig : 0 ≤ big) :
+    letI := fieldNum K sq
+    (∃ st : ClipSt K, ClipInv big (fun s => AabbMem b (rayPt sq ray s)) (NearOK b ray) (FarOK b ray) st ∧
+      clipAabbLine big b ray.o ray.d =
+        (if ((!st.nearDiag && st.nearSide == 0) || (!st.farDiag && st.farSide == 0)) = true then ClipRes.panic
+         else ClipRes.some ⟨st.tmin, clipNearN sq ray.d st, st.nearSide⟩ ⟨st.tmax, clipFarN sq ray.d st, st.farSide⟩)) ∨
+    (clipAabbLine big b ray.o ray.d = ClipRes.none ∧ ∀ s, 0 ≤ s → s ≤ big → ¬ AabbMem b (rayPt sq ray s)) := by
+  rcases clip_fold sq big b ray hv hbig with ⟨s0, s1, st, h0, h1, h2, inv⟩ | ⟨hnone, hno⟩
+  · refine Or.inl ⟨st, inv, ?_⟩
+    simp only [clipAabbLine, h0, h1, h2, clipNearN, clipFarN]
+    split_ifs <;> rfl
+  · refine Or.inr ⟨?_, hno⟩
+    simp only [clipAabbLine]
+    rcases hnone with h | ⟨s0, h0, h | ⟨s1, h1, h2⟩⟩
+    · rw [h]
+    · rw [h0]; simp only [h]
+    · rw [h0]; simp only [h1, h2]
+
+/-- `n` is the outward unit normal `∓e_i` of a face plane the ray point at `t` lies on, and the ray moves against it
+(`n = −e_i`: min face, `d_i > 0`; `n = +e_i`: max face, `d_i < 0`) -/
+def OutwardFaceNormal (b : Aabb K) (ray : Ray3 K) (t : K) (n : V3 K) : Prop :=
+  (n = ⟨-1, 0, 0⟩ ∧ 0 < ray.d.x ∧ (rayPt sq ray t).x = b.mins.x) ∨ (n = ⟨1, 0, 0⟩ ∧ ray.d.x < 0 ∧ (rayPt sq ray t).x = b.maxs.x) ∨
+  (n = ⟨0, -1, 0⟩ ∧ 0 < ray.d.y ∧ (rayPt sq ray t).y = b.mins.y) ∨ (n = ⟨0, 1, 0⟩ ∧ ray.d.y < 0 ∧ (rayPt sq ray t).y = b.maxs.y) ∨
+  (n = ⟨0, 0, -1⟩ ∧ 0 < ray.d.z ∧ (rayPt sq ray t).z = b.mins.z) ∨ (n = ⟨0, 0, 1⟩ ∧ ray.d.z < 0 ∧ (rayPt sq ray t).z = b.maxs.z)
+
+/-- a non-diagonal near normal written from a valid entering side code is an outward face normal -/
+theorem clipNearN_outward (b : Aabb K) (ray : Ray3 K) (st : ClipSt K) (hd : st.nearDiag = false)
+    (h : NearOK b ray st.nearSide st.tmin) : OutwardFaceNormal sq b ray st.tmin (clipNearN sq ray.d st) := by
+  unfold clipNearN; rw [hd]; simp only [Bool.false_eq_true, if_false]
+  have ptx : (rayPt sq ray st.tmin).x = ray.o.x + ray.d.x * st.tmin := rfl
+  have pty : (rayPt sq ray st.tmin).y = ray.o.y + ray.d.y * st.tmin := rfl
+  have ptz : (rayPt sq ray st.tmin).z = ray.o.z + ray.d.z * st.tmin := rfl
+  rcases h with h | h | h <;> rcases h with ⟨hs, hdd, hp⟩ | ⟨hs, hdd, hp⟩ <;> rw [hs] <;>
+    simp only [OutwardFaceNormal, ptx, pty, ptz, hp, axisVec] <;> norm_num <;> simp [hdd]
+
+/-- `Aabb::cast_local_ray_and_get_normal` in terms of the final loop state of `clip_aabb_line` (non-panicking case) -/
+theorem aabbN_cases (big : K) (b : Aabb K) (ray : Ray3 K) (max : K) (solid : Bool) (hv : AabbStrict b) (hbig : 0 ≤ big)
+    (r : Option (Hit3 K)) :
+    letI := fieldNum K sq
+    b.castLocalRayAndGetNormal big ray max solid = some r →
+    (∃ st : ClipSt K, ClipInv big (fun s => AabbMem b (rayPt sq ray s)) (NearOK b ray) (FarOK b ray) st ∧
+      ((st.nearDiag = false → st.nearSide ≠ 0) ∧ (st.farDiag = false → st.farSide ≠ 0)) ∧
+      ((st.tmin < 0 ∧ solid = true ∧ ∃ h, r = some h ∧ h.toi = 0) ∨
+       (st.tmin < 0 ∧ solid = false ∧ st.tmax ≤ max ∧ ∃ h, r = some h ∧ h.toi = st.tmax ∧ h.n = clipFarN sq ray.d st) ∨
+       (st.tmin < 0 ∧ solid = false ∧ max < st.tmax ∧ r = none) ∨
+       (0 ≤ st.tmin ∧ st.tmin ≤ max ∧ ∃ h, r = some h ∧ h.toi = st.tmin ∧ h.n = clipNearN sq ray.d st) ∨
+       (0 ≤ st.tmin ∧ max < st.tmin ∧ r = none))) ∨
+    (r = none ∧ ∀ s, 0 ≤ s → s ≤ big → ¬ AabbMem b (rayPt sq ray s)) := by
+  intro hres
+  rcases clip_cases sq big b ray hv hbig with ⟨st, inv, hclip⟩ | ⟨hclip, hno⟩
+  · simp only [Aabb.castLocalRayAndGetNormal, hclip] at hres
+    by_cases hp : ((!st.nearDiag && st.nearSide == 0) || (!st.farDiag && st.farSide == 0)) = true
+    · rw [if_pos hp] at hres; cases hres
+    · rw [if_neg hp] at hres
+      simp only at hres
+      refine Or.inl ⟨st, inv, ?_, ?_⟩
+      · simp only [Bool.or_eq_true, Bool.and_eq_true, Bool.not_eq_true', beq_iff_eq, not_or, not_and] at hp
+        exact ⟨fun h => hp.1 h, fun h => hp.2 h⟩
+      · by_cases h1 : st.tmin < 0
+        · rw [if_pos h1] at hres
+          cases solid with
+          | true =>
+            simp only [if_true, Option.some.injEq] at hres
+            exact Or.inl ⟨h1, rfl, _, hres.symm, rfl⟩
+          | false =>
+            simp only [Bool.false_eq_true, if_false] at hres
+            by_cases h2 : st.tmax ≤ max
+            · rw [if_pos h2] at hres; simp only [Option.some.injEq] at hres
+              exact Or.inr (Or.inl ⟨h1, rfl, h2, _, hres.symm, rfl, rfl⟩)
+            · rw [if_neg h2] at hres; simp only [Option.some.injEq] at hres
+              exact Or.inr (Or.inr (Or.inl ⟨h1, rfl, not_le.1 h2, hres.symm⟩))
+        · rw [if_neg h1] at hres
+          by_cases h2 : st.tmin ≤ max
+          · rw [if_pos h2] at hres; simp only [Option.some.injEq] at hres
+            exact Or.inr (Or.inr (Or.inr (Or.inl ⟨not_lt.1 h1, h2, _, hres.symm, rfl, rfl⟩)))
+          · rw [if_neg h2] at hres; simp only [Option.some.injEq] at hres
+            exact Or.inr (Or.inr (Or.inr (Or.inr ⟨not_lt.1 h1, not_le.1 h2, hres.symm⟩)))
+  · simp only [Aabb.castLocalRayAndGetNormal, hclip, Option.some.injEq] at hres
+    exact Or.inr ⟨hres.symm, hno⟩
+
+
 end C04
